@@ -42,7 +42,7 @@ def configs():
     return C
 
 
-TOPOLOGIES = ["orig", "clone_alive", "scope_owns_clone", "helper", "lent", "foreign_thread", "foreign_thread_clone_alive",
+TOPOLOGIES = ["orig", "clone_alive", "scope_owns_clone", "helper", "lent", "lent_caller", "foreign_thread", "foreign_thread_clone_alive",
               "created_while_unwinding",
               "nvid_clone_alive", "nvid"]     # the original was switched to no_verify_in_drop() (with / without a clone alive)      # the mock is built by cleanup code (a guard's Drop) running while its thread unwinds
 
@@ -61,6 +61,10 @@ def make_case(origin, terms, probe, arm, topo, variant):
         evs.append({"base": ("call", 0, 3, 0)})       # m3: unmentioned default body -> helper clone
     if topo == "lent":
         evs.append({"base": ("lend", 0)})
+    if topo == "lent_caller":
+        # the value chain holds a value whose Drop calls the mock (m1 is mentioned nowhere: the call fails, the Drop swallows the panic) -
+        # also when the chain is released while the thread unwinds
+        evs.append({"base": ("lendcall", 0, 1, 0)})
     if origin == "CannotReturnValueMoreThanOnce":
         evs.append({"base": ("call", inst, mid, arg)})  # first request takes the value
     if arm:
